@@ -129,7 +129,12 @@ func run(c *hx.Ctx, cf cfg) result {
 	seed := c.Rng.U64()
 	// server: real ServerExchange with a long timeout (the peer is "slow", not failing)
 	go func() {
-		_, _ = exchange.NewExchanger(l.Server, 2).WithRand(hx.NewRand(seed)).WithTimeout(time.Minute).Server(key).Run(context.Background())
+		// a PFS connect runs two exchanges (permanent, then temporary key) on the same connection
+		for n := 0; n < 2; n++ {
+			if _, err := exchange.NewExchanger(l.Server, 2).WithRand(hx.NewRand(seed+uint64(10*n))).WithTimeout(time.Minute).Server(key).Run(context.Background()); err != nil {
+				return
+			}
+		}
 	}()
 	ctx := context.Background()
 	if cf.CallerMs > 0 {
@@ -249,7 +254,10 @@ func main() {
 			return
 		}
 		if !(r.Returned && r.Within) {
-			step := map[int]string{1: "ResPQ (step 2)", 2: "Server_DH_Params (step 5)", 3: "dh_gen result (step 7)"}[cf.K]
+			step := map[int]string{1: "ResPQ (step 2)", 2: "Server_DH_Params (step 5)", 3: "dh_gen result (step 7)"}[(cf.K-1)%3+1]
+			if cf.K > 3 {
+				step += " of the temporary-key exchange"
+			}
 			if cf.Dir == 0 {
 				step = fmt.Sprintf("write of client message %d", cf.K)
 			}
@@ -308,7 +316,11 @@ func main() {
 			one(cfg{Level: "mtproto", PFS: pfs, Dir: 1, K: k, DialMs: 20000})
 		}
 	}
-	c.Obs.Rule = "configurations = {permanent, temporary} x {server message 1..3 withheld, client write 1..3 blocked} x {no caller deadline; in thorough and for half of the points in quick also caller deadline 20 s (> T, beyond the watchdog); 60 ms (< T) at the first step} at exchange level, plus ResPQ read preceded by 1 or 3 transport errors -404 (skipped by the read loop) then silence, plus mtproto.Conn.Run with PFS off/on x server message 1..3 withheld; non-trivial = distinct configuration whose stall point was reached"
+	// PFS connect, second (temporary-key) exchange on the same connection: server messages 4..6
+	for k := 4; k <= 6; k++ {
+		one(cfg{Level: "mtproto", PFS: true, Dir: 1, K: k, DialMs: 20000})
+	}
+	c.Obs.Rule = "configurations = {permanent, temporary} x {server message 1..3 withheld, client write 1..3 blocked} x {no caller deadline; in thorough and for half of the points in quick also caller deadline 20 s (> T, beyond the watchdog); 60 ms (< T) at the first step} at exchange level, plus ResPQ read preceded by 1 or 3 transport errors -404 (skipped by the read loop) then silence, plus mtproto.Conn.Run with PFS off/on x server message 1..3 withheld and PFS on x message 4..6 (temporary-key exchange); non-trivial = distinct configuration whose stall point was reached"
 	c.Finish()
 }
 
